@@ -70,7 +70,7 @@ func (b *B) Eq(rule, construct, where string, got *RF, env *SpecEnv, spec string
 			b.R.Undecided(rule, construct, where, "extracted value contains an unanalysed part: "+o)
 			return
 		}
-		if got.Equal(want) {
+		if got.Equal(want) || b.X.S.BoolEquiv(got, want) {
 			b.R.OK(rule, construct, where, "≡ "+spec)
 			ok = true
 		} else {
@@ -491,4 +491,113 @@ func (b *B) Formula(rule, construct, fnName string, names []string, lets [][2]st
 		}
 		b.Eq(rule, construct, b.pos(fn), fc.Sub(fc.RetVal(idx)), env, spec)
 	})
+}
+
+// loopPhis: the loop-carried atoms reachable from r (through their back-edge values).
+func (fc *FC) loopPhis(r *RF) []*RF {
+	seen := map[AtomID]bool{}
+	var out []*RF
+	var visit func(r *RF)
+	visit = func(r *RF) {
+		for _, at := range r.Atoms(true) {
+			if _, ok := fc.X.phiOf[at.ID]; !ok || seen[at.ID] {
+				continue
+			}
+			seen[at.ID] = true
+			v := fc.X.S.atomRF(at.ID)
+			out = append(out, v)
+			func() {
+				defer func() { recover() }()
+				_, nx := fc.Recurrence(v)
+				visit(nx)
+			}()
+		}
+	}
+	visit(r)
+	return out
+}
+
+type recSpec struct{ name, init, next string }
+
+// LoopSystem: find an assignment of the named loop variables to the
+// loop-carried atoms reachable from `from` such that every variable's initial
+// value and back-edge value equal the stated expressions (which may mention
+// the other variables). Names are roles, not source identifiers.
+func (b *B) LoopSystem(rule, construct, where string, fc *FC, from *RF, env *SpecEnv, specs []recSpec) map[string]*RF {
+	phis := fc.loopPhis(from)
+	if len(phis) < len(specs) {
+		b.R.Fail(rule, construct, where, fmt.Sprintf("expected %d loop-carried quantities, found %d", len(specs), len(phis)))
+		return nil
+	}
+	type rec struct{ init, next *RF }
+	recs := make([]rec, len(phis))
+	for i, p := range phis {
+		in, nx := fc.Recurrence(p)
+		recs[i] = rec{in, nx}
+	}
+	n := len(specs)
+	used := make([]bool, len(phis))
+	assign := make([]int, n)
+	var best string
+	var try func(k int) bool
+	check := func() bool {
+		e := *env
+		e.Vars = map[string]SVal{}
+		for k, v := range env.Vars {
+			e.Vars[k] = v
+		}
+		for k, sp := range specs {
+			e.Vars[sp.name] = SVal{phis[assign[k]], nil}
+		}
+		for k, sp := range specs {
+			wi, err := e.Parse(sp.init)
+			if err != nil {
+				panic(specErr(err.Error()))
+			}
+			wn, err := e.Parse(sp.next)
+			if err != nil {
+				panic(specErr(err.Error()))
+			}
+			if !recs[assign[k]].init.Equal(wi.RF) {
+				best = fmt.Sprintf("%s: initial value %s, stated %s", sp.name, clip(recs[assign[k]].init.String(), 200), sp.init)
+				return false
+			}
+			if !recs[assign[k]].next.Equal(wn.RF) {
+				best = fmt.Sprintf("%s: step computes %s, stated %s = %s", sp.name, clip(recs[assign[k]].next.String(), 300), sp.next, clip(wn.RF.String(), 300))
+				return false
+			}
+		}
+		return true
+	}
+	try = func(k int) bool {
+		if k == n {
+			return check()
+		}
+		for i := range phis {
+			if used[i] {
+				continue
+			}
+			used[i] = true
+			assign[k] = i
+			if try(k + 1) {
+				return true
+			}
+			used[i] = false
+		}
+		return false
+	}
+	ok := false
+	b.guard(rule, construct, func() { ok = try(0) })
+	if !ok {
+		if best != "" {
+			b.R.Fail(rule, construct, where, "no assignment of the loop-carried values satisfies the stated recurrences; closest mismatch — "+best)
+		}
+		return nil
+	}
+	out := map[string]*RF{}
+	for k, sp := range specs {
+		out[sp.name] = phis[assign[k]]
+	}
+	b.R.OK(rule, construct, where, fmt.Sprintf("%d recurrences (init and step) ≡ stated", n))
+	return out
 }
